@@ -175,7 +175,11 @@ func VerifyFunc(p *Program, fc *FuncContract, opts VerifyOpts) (rep *FuncReport)
 		}
 		for i, e := range fc.Ensures {
 			g := x.safeEvalBool(post, e.E, fc.Key()+" ensures")
-			o := x.emit("post", fmt.Sprintf("ensures#%d", i+1), st2, g, e.Text)
+			lbl := fmt.Sprintf("ensures#%d", i+1)
+			if e.Tag != "" {
+				lbl = "ensures:" + e.Tag // labelled clauses keep their obligation name when clauses are added or reordered
+			}
+			o := x.emit("post", lbl, st2, g, e.Text)
 			o.Hyps = append(o.Hyps, hints...)
 			x.applyKnownRegions(o, post)
 		}
